@@ -41,6 +41,8 @@ pub fn gen_poly(rng: &mut Rng) -> Option<Case> {
   let mut pts: Vec<(f64, f64)> = bear.iter().map(|&b| point_at(lon, lat, if convex { rmax } else { rmax * (0.3 + 0.7 * rng.f()) }, b)).collect();
   let cw = rng.coin();
   if cw { pts.reverse(); }
+  // vertices given with longitudes outside [0, 2pi) (one polygon in 12, each vertex independently)
+  if rng.below(12) == 0 { for p in pts.iter_mut() { if rng.coin() { p.0 += *rng.pick(&[-2.0, -1.0, 1.0]) * TWO_PI; } } }
   for p in pts.iter() { vl.push(p.0); vb.push(p.1); }
   Some(Case::new("poly").u("depth", depth as u64).b("convex", convex).b("cw", cw).f("lon", lon).f("lat", lat).f("R", rmax).fl("vl", &vl).fl("vb", &vb).u("s", rng.next() >> 1).s("cls", &format!("R~1e{}", rmax.log10().floor() as i32)))
 }
@@ -63,7 +65,8 @@ pub fn judge(ctx: &mut Ctx, c: &Case) {
   let mut rng = Rng::new(c.gu("s"), 17);
   let fp = [depth as u64, lon.to_bits(), lat.to_bits(), rmax.to_bits(), poly.len() as u64, c.gu("s")];
   // classification
-  let lons: Vec<f64> = poly.iter().map(|p| p.0).collect();
+  let lons: Vec<f64> = poly.iter().map(|p| p.0.rem_euclid(TWO_PI)).collect();
+  if poly.iter().any(|p| p.0 < 0.0 || p.0 >= TWO_PI) { ctx.hard("polygon:vertex-longitude-outside-[0,2pi)", &fp); }
   let crosses0 = lons.iter().any(|&l| l < 1.0) && lons.iter().any(|&l| l > 5.0);
   if crosses0 && poly.iter().any(|p| p.1.abs() > trans_lat()) { ctx.hard("polygon:edge-crosses-lon=0-inside-a-polar-cap", &fp); }
   let dl = { let m = lon.rem_euclid(PI / 2.0); m.min(PI / 2.0 - m) };
